@@ -324,6 +324,28 @@ func init() {
 						}
 						c.Count("tiny_segment_lines", 1)
 					}
+					if r.P(1, 8) && z >= 3 && z <= 10 {
+						// vertices in the middle of a run that is exactly straight in longitude/latitude (whole degrees in equal
+						// steps) and oblique: straight there is not straight in tile space - the line bends at every one of them
+						ls = ls[:0]
+						lon, lat := float64(r.Range(-170, 60)), float64(r.Range(-75, 40))
+						dx, dy := float64(r.Range(1, 30)), float64(r.Range(-30, 30))
+						for k := 0; k <= r.Range(2, 5); k++ {
+							p := orb.Point{lon + float64(k)*dx, lat + float64(k)*dy}
+							if p[0] > 179 || math.Abs(p[1]) > 84 {
+								break
+							}
+							ls = append(ls, p)
+						}
+						if len(ls) < 3 {
+							return
+						}
+						if r.Bool() { // and on: an ordinary vertex behind the run
+							x, y := c14tilePoint(r, z, cx, cy, rad)
+							ls = append(ls, tileToLonLat(x, y, z))
+						}
+						c.Count("lines_with_vertices_inside_a_run_straight_in_lon_lat", 1)
+					}
 					fr := fractions(ls, zoom)
 					if polyLen(fr) == 0 {
 						return // outside the domain: no positive length
@@ -484,6 +506,29 @@ func init() {
 					u.Merge(cover)
 					if g, err := tilecover.Geometry(coll, zoom); err != nil || !sameSet(g, u) {
 						c.Fail("", "the cover of a collection is not the union of its members' covers", map[string]interface{}{"polygon": sv(pg), "zoom": z, "err": sv(err)})
+					}
+					// members that lie in each other's way: an island filling a lake of the polygon (its outline runs through
+					// tiles the polygon's hole boundary already covers), in either order - still the union of the members' covers
+					for hi := 1; hi < len(pg); hi++ {
+						island := orb.Polygon{pg[hi].Clone()}
+						ic, err := tilecover.Polygon(island.Clone(), zoom)
+						if err != nil || !c14polygon(c, island, zoom, ic, "Polygon (island in a lake)") {
+							break
+						}
+						want := maptile.Set{}
+						want.Merge(cover)
+						want.Merge(ic)
+						m1, err1 := tilecover.MultiPolygon(orb.MultiPolygon{pg.Clone(), island.Clone()}, zoom)
+						m2, err2 := tilecover.MultiPolygon(orb.MultiPolygon{island.Clone(), pg.Clone()}, zoom)
+						c.Evals(3)
+						c.Count("multi_polygons_of_a_polygon_and_an_island_in_its_lake", 1)
+						if len(trueTiles(ic)) > len(trueTiles(tilecover.LineString(orb.LineString(island[0]), zoom))) {
+							c.Count("islands_with_tiles_of_their_own_interior", 1)
+						}
+						if err1 != nil || err2 != nil || !sameSet(m1, want) || !sameSet(m2, want) {
+							c.Fail("", "the cover of a multi-polygon is not the union of its members' covers", map[string]interface{}{"polygon": sv(pg), "island": sv(island), "zoom": z, "union_tiles": len(trueTiles(want)), "polygon_first": len(trueTiles(m1)), "island_first": len(trueTiles(m2)), "err": sv(err1) + sv(err2)})
+							break
+						}
 					}
 					b := pg[0].Bound()
 					bc := tilecover.Bound(b, zoom)
